@@ -1986,6 +1986,11 @@ class FortranFile:
             add_line_comment(file_ast, docs)
             return False
 
+        # A "!>" block documents the next entity, it does not continue the
+        # documentation that trails the previous one
+        if docs and doc_match.group(1) == ">":
+            add_line_comment(file_ast, docs)
+
         _ln = ln
         ln, docs[:], predocmark = self.get_docstring(ln, line, doc_match, docs)
 
@@ -2033,7 +2038,9 @@ class FortranFile:
         for i in range(ln, self.nLines):
             next_line = self.get_line(i, pp_content=True)
             match = self.DOC_COMMENT_MATCH.match(next_line)
-            if not match:
+            # A "!>" line after a block that documents the previous entity starts
+            # the documentation of the next one
+            if not match or (not predocmark and match.group(1) == ">"):
                 ln = i
                 break
             docstring.append(next_line[match.end(0) :].strip())
